@@ -52,6 +52,18 @@ FIXED = [
     ('D24', 'C14', 'reads and writes files as UTF-8', "MATLAB generation of an input with a non-ASCII character failed with UnicodeDecodeError when the locale encoding is ASCII (files opened with the locale encoding)"),
     ('D27', 'C17', 'tolerates parameters without description', "a Doxygen member with an empty <parameterdescription> or an omitted optional parameter with only <defname> raised AttributeError instead of giving a docstring"),
     ('D39', 'C02', 'dunder method arguments of templated classes', "arguments of dunder methods of a templated class were not instantiated (__contains__(T key) kept T)"),
+    ('D6', 'C03', 'opened again reuses its Python submodule', "a reopened namespace declared its submodule variable twice (pybind11::module m_a = ... emitted per namespace block)"),
+    ('D20', 'C10', 'MATLAB deserialization names the class by its package path', "serialization support of a global-scope class emitted `.Name.string_deserialize`, of a class in a::b `ab.C` (loadobj and the handle name of the deserialised object)"),
+    ('D11', 'C06', 'static methods assign the outputs their return type has', "MATLAB static methods always assigned varargout{1}, also for void and pair returns"),
+    ('D23', 'C08', "'unsigned char' arguments contain no blank", "instantiated names contained a blank for `unsigned char` arguments (MVunsigned char)"),
+    ('D22', 'C06', 'templated method returning a pair no longer crashes', "a templated method returning a pair crashed the MATLAB generator (method rebound to a string)"),
+    ('D1', 'C02', 'instantiated at any depth', "a template parameter nested two or more levels deep inside template arguments was not substituted"),
+    ('D3', 'C02', 'This is replaced inside template arguments', "`This` inside template arguments (std::vector<This>) was not replaced"),
+    ('D45', 'C02', 'scoped template use inside template arguments', "scoped use T::X inside template arguments was not substituted"),
+    ('D38', 'C02', 'This inside a templated base class', "`This` inside a templated base class was replaced by the namespace instead of the class"),
+    ('D46', 'C02', 'keeps the template arguments on the scope', "scoped use T::X with a templated concrete type put the template arguments after the member (Foo::X<int>)"),
+    ('D5', 'C08', 'typedef finds its template', "a typedef of a template declared in a namespace that had been instantiated earlier failed (Cannot find class)"),
+    ('D48', 'C02', 'only the leading component of a scoped name', "a qualified name whose last component is spelled like a template parameter (nsT::TT with TT a parameter) was rewritten (nsT::aab5): any component, not only the leading one, was taken for the parameter"),
 ]
 
 # open findings: key, property, probe handler, what (printed in the KNOWN-FINDING line), mechanism, witness builder
@@ -68,32 +80,15 @@ def inst(text):
 
 
 # ---- C02
-finding('D1', 'C02', 'inst-text', 'template parameter nested two or more levels deep inside template arguments is not substituted',
-        'instantiate_type rewrites first-level template arguments only',
-        inst('template<T = {double}> class A { void f(std::vector<std::vector<T>> x); };'))
-finding('D3', 'C02', 'inst-text', '`This` inside template arguments (std::vector<This>) is not replaced',
-        'only This::X is handled inside template arguments', inst('template<T = {double}> class A { void f(std::vector<This> v); };'))
-finding('D38', 'C02', 'inst-text', '`This` inside a templated base class is replaced by the namespace instead of the class',
-        'instantiate_parent_class passes Typename(namespaces) as cpp_typename',
-        inst('namespace n { template<T = {double}> class A : n::B<n::This::Sub, T> { void g(); }; }'))
-finding('D45', 'C02', 'inst-text', 'scoped use T::X inside template arguments is not substituted',
-        'is_scoped_template only inspects the top-level spelling', inst('template<T = {ns::P}> class A { void f(std::vector<T::Value> v); };'))
-finding('D46', 'C02', 'inst-text', 'scoped use T::X with a templated concrete type puts the template arguments after the member (Foo::X<int>)',
-        'the scope is spliced into Typename.name, the instantiations stay at the end', inst('template<T = {ns::Foo<int>}> class A { void f(T::Value v); };'))
+finding('D49', 'C02', 'inst-text', 'a qualified name inside template arguments whose last component is spelled like a template parameter (vector<a::T>) is rewritten',
+        'the template-argument loop compares Typename.name only (pinned by tests/expected/matlab/class_wrapper.cpp: This::M -> Fun<double>::double)',
+        inst('template<T = {double}> class A { void f(std::vector<a::T> v); };'))
 # ---- C08
-finding('D5', 'C08', 'inst-text', 'typedef of a template declared in a namespace that was instantiated earlier fails (Cannot find class)',
-        'typedefs are resolved against the partially instantiated tree',
-        inst('namespace a { template<T> class F { void g(); }; }\nnamespace b { typedef a::F<int> FI; }'))
-finding('D23', 'C08', 'inst-text', 'instantiated names contain a blank for `unsigned char` arguments',
-        'instantiated_name concatenates the spelling', inst('template<T = {ns::V<unsigned char>}> class M { void g(); };'))
 # ---- C01 / C07
 finding('D47', 'C07', 'accept-text', 'qualifier tokens inside typedef / instantiation-list arguments are accepted and dropped',
         'TypedefTemplateInstantiation and Template keep only the Typename of templated arguments',
         {'text': 'template<T> class A { void g(); };\ntypedef A<const B*> C;\n'})
 # ---- C03
-finding('D6', 'C03', 'pybind-inventory', 'a reopened namespace declares its submodule variable twice',
-        'def_submodule is emitted every time a namespace node is entered',
-        {'model': model_of('namespace a { class X { X(); }; }\nnamespace a { class Y { Y(); }; }'), 'options': {'top': [], 'ignore': [], 'ser': False}})
 # ---- C09
 finding('D8', 'C12', 'two-texts', 'a comment glued without whitespace to the end of a default value becomes part of the default text',
         'DEFAULT_ARG words are Word(printables) and include "/*" and "//"',
@@ -113,14 +108,10 @@ finding('D44', 'C09', 'compile-text', 'two classes of the same name in different
 M = 'matlab-marshal'
 finding('D9', 'C06', M, 'a `const string&` parameter is unwrapped as an object handle', 'is_ref() treats string like a class',
         inst('class A { A(); void f(const string& s) const; };'))
-finding('D11', 'C06', M, 'static methods always assign varargout{1}, also for void and pair returns', 'wrap_static_methods hard-codes varargout{1}',
-        inst('class A { static void sv(); };'))
 finding('D12', 'C06', M, 'templated free functions are called by their instantiated name (tfDouble)', 'wrap_collector_function_return uses method.name',
         inst('template<T = {double}> T tf(T x);'))
 finding('D13', 'C06', M, 'templated static methods lose their explicit template arguments', 'static branch uses original.name without instantiations',
         inst('class A { template<U = {int}> static U ts(); };'))
-finding('D22', 'C06', M, 'a templated method returning a pair crashes the MATLAB generator', 'wrap_collector_function_return rebinds `method` to a string',
-        inst('class A { template<T = {int}> pair<int, double> f(T t) const; };'))
 finding('D28', 'C06', M, 'a templated class used as parameter type gets guard / handle names from its C++ spelling', '_format_type_name concatenates instantiations',
         inst('namespace ns { template<T = {int}> class Tpl { Tpl(); }; class U { U(); void f(const ns::Tpl<int>& t) const; }; }'))
 finding('D30', 'C06', M, 'an enum half of a pair return is wrapped as an object', 'wrap_collector_function_return_types has no enum case',
@@ -132,8 +123,9 @@ finding('D33', 'C06', M, 'the setter of a shared-pointer property assigns *value
 finding('D41', 'C06', M, "parameters of type unsigned char are guarded with isa(x,'unsigned char'), which no MATLAB value satisfies",
         "data_type maps 'unsigned char' to itself", inst('class A { A(); void f(unsigned char c) const; };'))
 # ---- C10
-finding('D20', 'C10', 'toolbox-serialize-name', 'serialization of a global-scope class emits `.Name.string_deserialize`',
-        "class_name = namespace_name + '.' + name with an empty namespace", {'text': 'class G { G(); void serialize(); };'})
+# ---- C05
+finding('D50', 'C05', 'toolbox-ids', 'overloads of a free function declared in two blocks of the same (reopened) namespace: the function file of the later block overwrites the earlier one, whose routine keeps an id without call site',
+        'wrap_namespace writes one <name>.m per namespace node', {'text': 'namespace a { int f(int x); }\nnamespace a { int f(int x, int y); }\n'})
 # ---- C14
 # ---- C04
 finding('D40', 'C04', 'import-module', 'a default value of the class\'s own enum type makes the module fail at import (enum registered after the class)',
